@@ -95,3 +95,10 @@ SPEC("pane.classes", "PaneBase.dict",
                    not truthy(sat(self.__pane_info__.fields, i).exclude) and rf(fname(self, i), rename) == k2
                    and mget(result, k2) == getattr(self, fname(self, i)))))),
                ["C05", "C16"], "all-fields")])
+
+
+# ---- the converter of a dataclass: the class (subscripted by the type arguments, if any) with the handlers threaded (C18) -------
+SPEC("pane.classes", "PaneBase._converter",
+     shapes={"args": "seq", "cls": "typeobj"},
+     ensures=[(lambda cls, args, handlers, result: implies(slen(args) == 0, result == PaneConverter(cls, handlers=handlers)), ["C15", "C18"], "plain"),
+              (lambda cls, args, handlers, result: implies(slen(args) > 0, exists_val(lambda sub: result == PaneConverter(sub, handlers=handlers))), ["C17", "C18"], "subscripted")])
